@@ -1,3 +1,203 @@
-/-! # C16 — property theorems (stub: not built yet) -/
+import PymtlVerif.Proofs.VCD
+/-!
+# C16 — waveform dumps replay the simulation exactly
+
+Theorems about `Model/VCD.lean`: the value-change section written by `VcdGenerationPass` (`dump`), read by a
+reader that knows only the `$var` declarations and the lines of the file (`replay`: a value holds until it is
+changed; cycle `t` = time `100·t`), gives back the sampled trace — for every number of nets, every trace
+(values may return to earlier values, nets may never change), every position of the clock net.
+
+`dump` follows the code including its slip in `dump_vcd_inner` (`last_values` is indexed by the position in
+`net_details`, which skips the clock net, but was filled by net index). The theorems therefore carry the
+hypothesis `QuirkSafe` (from the clock net on, neighbouring nets of equal width have equal default values);
+it holds whenever all default values are equal — in pymtl3 they are all zero (`replay_dump_zero_init`) — and
+it cannot be dropped (`quirk_needs_equal_defaults`).
+-/
 namespace PV.C16
+open PV.Bits PV.VCD
+
+/-- a sampled row: one value per non-clock net (order of `details`), each fitting the net's width -/
+def RowOk (d : Design) (row : List Nat) : Prop :=
+  row.length = (details d).length ∧
+  ∀ i (h1 : i < (details d).length) (h2 : i < row.length), row[i] < 2 ^ (details d)[i].1
+
+/-- position of net `j` in a sampled row (`net_details` skips the clock net) -/
+def dataPos (d : Design) (j : Nat) : Nat := if j < d.clk then j else j - 1
+
+/-! ## to_vcd_str and symbols -/
+
+/-- `to_vcd_str` parses back: 1-bit values are `0`/`1`, wider ones `b<nbits binary digits><blank>` -/
+theorem vcd_str_parses (n v : Nat) (hv : v < 2 ^ n) : parseVcdStr n (toVcdStr ⟨n, v⟩) = some v := by
+  have := parse_str n v
+  rwa [Nat.mod_eq_of_lt hv] at this
+
+/-- `to_vcd_str` is injective on (nbits, value) for value < 2^nbits -/
+theorem vcd_str_injective (n v m u : Nat) (hv : v < 2 ^ n) (hu : u < 2 ^ m)
+    (h : toVcdStr ⟨n, v⟩ = toVcdStr ⟨m, u⟩) : n = m ∧ v = u := by
+  have := str_inj n v m u h
+  rw [Nat.mod_eq_of_lt hv, Nat.mod_eq_of_lt hu] at this
+  exact this
+
+/-- the shape of the string: length 1 for one bit, nbits + 2 otherwise (zero padded to nbits) -/
+theorem vcd_str_length (n v : Nat) :
+    (toVcdStr ⟨n, v⟩).toList.length = if n = 1 then 1 else n + 2 := by
+  have := congrArg List.length (str_toList n v)
+  unfold str at this
+  by_cases h : n = 1
+  · simpa [h] using this
+  · simpa [h, length_binDigits] using this
+
+/-- distinct nets get distinct VCD symbols (`_gen_vcd_symbol`) -/
+theorem symbol_injective (a b : Nat) (h : symbol a = symbol b) : a = b := symbol_inj a b h
+
+/-! ## replay ∘ dump = id -/
+
+theorem holds_read {st : St} {ds : List (Nat × Nat)} {vs : List Nat} {ls : List String}
+    (h : Holds st ds vs ls)
+    (hb : ∀ i (h1 : i < ds.length) (h2 : i < vs.length), vs[i] < 2 ^ ds[i].1) :
+    (ds.map (fun p => (p.1, symbol p.2))).map (readSig st) = vs.map some := by
+  obtain ⟨hl, hx⟩ := h.index
+  apply List.ext_getElem
+  · simp [hl]
+  · intro i h1 h2
+    simp only [List.length_map] at h1 h2
+    simp only [List.getElem_map, readSig]
+    rw [hx i h1 h2]
+    simp only [Option.bind_some]
+    rw [parse_str, Nat.mod_eq_of_lt (hb i h1 h2)]
+
+/-- **Main theorem.** Reading the dump of a trace gives the trace back, for every non-clock net in every
+    cycle (cycle 0 and the header values included). -/
+theorem replay_dump (d : Design) (init : List Nat) (tr : List (List Nat))
+    (hk : d.clk < d.widths.length) (hi : init.length = d.widths.length) (hq : QuirkSafe d init)
+    (hr : ∀ row ∈ tr, RowOk d row) :
+    replay (dataDecls d) (dump d init tr) tr.length = tr.map (fun row => row.map some) := by
+  apply List.ext_getElem
+  · simp [replay]
+  · intro t h1 h2
+    have ht : t < tr.length := by simpa [replay] using h1
+    simp only [replay, List.getElem_map, List.getElem_range]
+    obtain ⟨ls, hh⟩ := dump_holds d init tr hk hi hq (fun row hrow => (hr row hrow).1) t ht
+    exact holds_read hh (hr tr[t] (List.getElem_mem _)).2
+
+theorem quirkSafe_replicate (d : Design) (x : Nat) :
+    QuirkSafe d (List.replicate d.widths.length x) := by
+  intro i _ hw
+  simp only [List.getElem?_replicate]
+  by_cases h1 : i + 1 < d.widths.length
+  · have : i < d.widths.length := by omega
+    simp [h1, this]
+  · by_cases h0 : i < d.widths.length
+    · rw [List.getElem?_eq_getElem h0, List.getElem?_eq_none (by omega)] at hw
+      simp at hw
+    · simp [h0, h1]
+
+/-- the case that exists in pymtl3: every default value is zero — no further hypothesis -/
+theorem replay_dump_zero_init (d : Design) (tr : List (List Nat))
+    (hk : d.clk < d.widths.length) (hr : ∀ row ∈ tr, RowOk d row) :
+    replay (dataDecls d) (dump d (List.replicate d.widths.length 0) tr) tr.length
+      = tr.map (fun row => row.map some) :=
+  replay_dump d _ tr hk (by simp) (quirkSafe_replicate d 0) hr
+
+/-- per declared signal: a signal mapped to non-clock net `j` reads, in cycle `t`, the sampled value of net `j` -/
+theorem replay_signal (d : Design) (init : List Nat) (tr : List (List Nat))
+    (hk : d.clk < d.widths.length) (hi : init.length = d.widths.length) (hq : QuirkSafe d init)
+    (hr : ∀ row ∈ tr, RowOk d row)
+    (a : Nat) (ha : a < d.sigs.length) (hj : d.sigs[a] ≠ d.clk) (hjN : d.sigs[a] < d.widths.length)
+    (t : Nat) (ht : t < tr.length) :
+    ∃ v, tr[t][dataPos d d.sigs[a]]? = some v ∧
+      (replay (decls d) (dump d init tr) tr.length)[t]?.bind (·[a]?) = some (some v) := by
+  obtain ⟨ls, hh⟩ := dump_holds d init tr hk hi hq (fun row hrow => (hr row hrow).1) t ht
+  obtain ⟨hl, hx⟩ := hh.index
+  have hrow := hr tr[t] (List.getElem_mem _)
+  generalize hjdef : d.sigs[a] = j at hj hjN ⊢
+  have hpos : dataPos d j < (details d).length := by
+    rw [details_length d hk]; unfold dataPos; split <;> omega
+  have hd := details_get? d (dataPos d j)
+  rw [List.getElem?_eq_getElem hpos] at hd
+  have hd' : (details d)[dataPos d j] = (d.widths[j], j) := by
+    unfold dataPos at hd ⊢
+    by_cases hlt : j < d.clk
+    · simp only [hlt, if_true] at hd ⊢
+      rw [List.getElem?_eq_getElem hjN] at hd
+      simpa using hd
+    · have e : j - 1 + 1 = j := by omega
+      have hlt' : ¬ (j - 1 < d.clk) := by omega
+      simp only [hlt, hlt', if_false, e] at hd ⊢
+      rw [List.getElem?_eq_getElem hjN] at hd
+      simpa using hd
+  have hpv : dataPos d j < tr[t].length := by rw [hl]; exact hpos
+  refine ⟨tr[t][dataPos d j], List.getElem?_eq_getElem hpv, ?_⟩
+  have hget := hx _ hpos hpv
+  have hbound := hrow.2 _ hpos hpv
+  rw [hd'] at hget hbound
+  simp only at hget hbound
+  have hta : t < (replay (decls d) (dump d init tr) tr.length).length := by simp [replay, ht]
+  rw [List.getElem?_eq_getElem hta]
+  simp only [replay, List.getElem_map, List.getElem_range, Option.bind_some, decls, List.getElem?_map,
+    List.getElem?_eq_getElem ha, Option.map_some, hjdef, readSig]
+  rw [List.getD_eq_getElem?_getD, List.getElem?_eq_getElem hjN]
+  simp only [Option.getD_some, hget, Option.bind_some]
+  rw [parse_str, Nat.mod_eq_of_lt hbound]
+
+/-- signals mapped to the same net read the same value in every cycle of any file -/
+theorem shared_symbol (d : Design) (evs : List Ev) (n : Nat) (a b : Nat)
+    (ha : a < d.sigs.length) (hb : b < d.sigs.length) (hab : d.sigs[a] = d.sigs[b]) (t : Nat) :
+    (replay (decls d) evs n)[t]?.bind (·[a]?) = (replay (decls d) evs n)[t]?.bind (·[b]?) := by
+  cases h : (replay (decls d) evs n)[t]? with
+  | none => rfl
+  | some row =>
+    simp only [replay, List.getElem?_map] at h
+    cases h2 : (List.range n)[t]? with
+    | none => simp [h2] at h
+    | some t' =>
+      simp only [h2, Option.map_some, Option.some.injEq] at h
+      subst h
+      simp [decls, List.getElem?_eq_getElem ha, List.getElem?_eq_getElem hb, hab]
+
+/-! ## the clock -/
+
+/-- the timestamped lines of the clock symbol in a dump of N cycles: 1 at time 0, then for every cycle c
+    0 at 100c+50 and 1 at 100c+100 — nothing else writes that symbol -/
+theorem clock_edges (d : Design) (init : List Nat) (tr : List (List Nat)) :
+    edgesOf (symbol d.clk) none (dump d init tr) = (0, "1") :: clockExp 0 tr.length :=
+  edges_dump d init tr
+
+/-- the clock toggles exactly once per cycle: inside [100t, 100t+100) it rises at 100t and falls at 100t+50 -/
+theorem clock_once_per_cycle (d : Design) (init : List Nat) (tr : List (List Nat)) (t : Nat) (ht : t < tr.length) :
+    (edgesOf (symbol d.clk) none (dump d init tr)).filter (fun e => 100 * t ≤ e.1 ∧ e.1 < 100 * t + 100)
+      = [(100 * t, "1"), (100 * t + 50, "0")] := by
+  rw [clock_edges]
+  have := clock_window 0 tr.length t (by omega) (by omega)
+  simpa using this
+
+/-! ## the `last_values` slip -/
+
+/-- with unequal default values the slip loses a change: nets (clk, a, b), both 4 bits wide, default 5 and 0;
+    b = 5 in cycle 0 is compared with a's header string, found "unchanged", and the file keeps saying b = 0 -/
+theorem quirk_needs_equal_defaults :
+    let d : Design := { widths := [1, 4, 4], clk := 0, sigs := [] }
+    replay (dataDecls d) (dump d [0, 5, 0] [[5, 5]]) 1 = [[some 5, some 0]] := by
+  decide
+
+/-- with pymtl3's all-zero defaults the slip only costs redundant lines in cycle 0:
+    here `b0000000 #` is written again although net 2 did not change -/
+example :
+    (dump { widths := [8, 1, 7], clk := 1, sigs := [] } [0, 0, 0] [[0, 0]]).map Ev.text
+      = ["b00000000 !", "0\"", "b0000000 #", "#0", "1\"", "b0000000 #", "#50", "0\"", "#100", "1\""] := by
+  decide
+
+/-! ## non-vacuity -/
+
+example : symbol 0 = "!" ∧ symbol 93 = "~" ∧ symbol 94 = "\"!" := by decide
+example : toVcdStr ⟨1, 1⟩ = "1" ∧ toVcdStr ⟨3, 2⟩ = "b010 " := by decide
+/-- a trace that returns to earlier values, with a net that never changes, clock net in the middle -/
+example :
+    let d : Design := { widths := [3, 1, 2, 1], clk := 1, sigs := [0, 0, 2, 3, 1] }
+    replay (dataDecls d) (dump d [0, 0, 0, 0] [[5, 0, 1], [2, 0, 1], [5, 0, 0], [5, 0, 1]]) 4
+      = [[some 5, some 0, some 1], [some 2, some 0, some 1], [some 5, some 0, some 0], [some 5, some 0, some 1]] := by
+  decide
+example : RowOk { widths := [3, 1, 2, 1], clk := 1, sigs := [] } [5, 0, 1] := by
+  unfold RowOk; decide
+
 end PV.C16
